@@ -30,18 +30,22 @@ def specTransfer (payload : List α) : List α := payload
 /-- what `$(producer)` must yield -/
 def specSubst [DecidableEq α] (nl : α) (payload : List α) : List α := specTrim nl payload
 
+/-- `_POSIX_PIPE_BUF` (<limits.h>): the minimum acceptable value of {PIPE_BUF}; POSIX guarantees that
+    a write of at most this many bytes to a pipe is atomic on every conforming system -/
+def posixPipeBuf : Nat := 512
+
 /-- POSIX `write` on a pipe, as a check of one observed outcome against the state before it -/
 def specWriteOk (c : Cfg) (p : Fifo α) (len : Nat) (res : WRes) (p' : Fifo α) (buf : List α) : Bool :=
   let room := c.pipeSize - p.content.length
   match res with
   | .epipe => p.readers == 0 && p'.content.length == p.content.length
   | .block => p.readers != 0 && p'.content.length == p.content.length &&
-      (if len ≤ c.pipeBuf then decide (room < len) else room == 0)
+      (if len ≤ c.pipeBuf ∨ len ≤ posixPipeBuf then decide (room < len) else room == 0)
   | .wrote n =>
       p.readers != 0 && decide (n ≤ len) && decide (p'.content.length ≤ c.pipeSize) &&
       p'.content.length == p.content.length + n &&
       -- atomic requests are complete; larger ones make progress
-      (if len ≤ c.pipeBuf then n == len else (decide (1 ≤ n) && n == min room len)) &&
+      (if len ≤ c.pipeBuf ∨ len ≤ posixPipeBuf then n == len else (decide (1 ≤ n) && n == min room len)) &&
       p'.content.length == (p.content ++ buf.take n).length
 
 /-- POSIX `read` on a pipe, as a check of one observed outcome -/
